@@ -239,12 +239,12 @@ def rule_pv_legal(ctx):
                 if e[0] == "call" and e[1] in ("std::result::Result::is_err", "std::result::Result::is_ok") and expr_str(mir.strip_copies(e[2][0])).startswith("Board::is_legal_move"):
                     f, tr = C.switch_edges(blk.term)
                     illegal_edge = tr if (e[1].endswith("is_err") != neg) else f
-                    if not any(pb in b.reachable_from(x, include_start=True) for x in illegal_edge) and b.dominates(lbk, blk.idx):
+                    if not any(pb in b.reachable_from(x, removed={blk.idx}, include_start=True) for x in illegal_edge) and b.dominates(lbk, blk.idx):
                         ok = True
                 if e[0] == "discr" and "is_legal_move" in expr_str(e[1]):
                     # match on the Result: the Err arm must not reach the push
                     for a in blk.term["arms"]:
-                        if a[0] == 1 and pb not in b.reachable_from(a[1], include_start=True):
+                        if a[0] == 1 and pb not in b.reachable_from(a[1], removed={blk.idx}, include_start=True):
                             ok = True
         ctx.check(ok, "%s:push-dominated-by-legality" % GET_PV, "the pushed move `%s` passed is_legal_move on the same board before being pushed" % expr_str(mv), b.where(pb),
                   bad_what="a move is pushed to the PV without a dominating successful is_legal_move on the same value: a stale or colliding cache entry would put an illegal move in the PV")
